@@ -13,12 +13,12 @@ RUN=$(grep -ohE 'func (Test[A-Za-z0-9_]+)' "$DEMO" | awk '{print $2}' | paste -s
 git diff > /tmp/seed/$ID.confirm.patch
 [ -s /tmp/seed/$ID.confirm.patch ] || { echo "$ID: empty patch"; exit 2; }
 echo "== $ID demo=$DEMO run=$RUN"
-go test -vet=off -count=1 -run "^($RUN)\$" "$PKG" > /tmp/seed/$ID.with.log 2>&1; W=$?
+/verif/tools/nstest.sh "$WT" -run "^($RUN)\$" "$PKG" > /tmp/seed/$ID.with.log 2>&1; W=$?
 git checkout -- . 
-go test -vet=off -count=1 -run "^($RUN)\$" "$PKG" > /tmp/seed/$ID.without.log 2>&1; WO=$?
+/verif/tools/nstest.sh "$WT" -run "^($RUN)\$" "$PKG" > /tmp/seed/$ID.without.log 2>&1; WO=$?
 git apply /tmp/seed/$ID.confirm.patch
 mv "$DEMO" /tmp/seed/$ID.demo.go
-go build ./... > /tmp/seed/$ID.suite.log 2>&1 && go test -vet=off -count=1 ./... >> /tmp/seed/$ID.suite.log 2>&1
+go build ./... > /tmp/seed/$ID.suite.log 2>&1 && /verif/tools/nstest.sh "$WT" ./... >> /tmp/seed/$ID.suite.log 2>&1
 FAILS=$(grep -E '^--- FAIL' /tmp/seed/$ID.suite.log | grep -v TestSyslogFilter | awk '{print $3}' | sort -u | paste -sd' ')
 if [ -n "$FAILS" ]; then
   # re-run once the failing tests only (networked tests are flaky under load)
@@ -26,7 +26,7 @@ if [ -n "$FAILS" ]; then
   for try in 1 2 3; do
     [ -z "$FAILS" ] && break
     PAT=$(echo $FAILS | tr ' ' '|')
-    go test -vet=off -count=1 -p 1 -run "^($PAT)\$" ./... > /tmp/seed/$ID.suite2.log 2>&1
+    /verif/tools/nstest.sh "$WT" -p 1 -run "^($PAT)\$" ./... > /tmp/seed/$ID.suite2.log 2>&1
     FAILS=$(grep -E '^--- FAIL' /tmp/seed/$ID.suite2.log | awk '{print $3}' | sort -u | paste -sd' ')
   done
 fi
